@@ -1684,6 +1684,7 @@ func (self *ReplicationAckDB) ProcessLeaderPushLock(glockIndex uint16, aofLock *
 	self.commandAofs[glockIndex][lock.command.RequestId] = aofId
 	self.aofLocks[glockIndex][aofId] = lock
 	lock.ackCount = self.ackCount
+	lock.ackAofed = false
 	self.ackGlocks[glockIndex].Unlock()
 	return nil
 }
@@ -1728,7 +1729,11 @@ func (self *ReplicationAckDB) ProcessLeaderAcked(glockIndex uint16, aofLock *Aof
 			return nil
 		}
 
-		lock.ackCount--
+		// the count includes the leader's own write: acknowledgements of followers alone never complete it
+		// (majority mode with two followers has a count of 2)
+		if lock.ackCount > 1 || lock.ackAofed {
+			lock.ackCount--
+		}
 		if lock.ackCount > 0 {
 			self.ackGlocks[glockIndex].Unlock()
 			return nil
@@ -1763,6 +1768,7 @@ func (self *ReplicationAckDB) ProcessLeaderAofed(glockIndex uint16, aofLock *Aof
 			return nil
 		}
 
+		lock.ackAofed = true
 		lock.ackCount--
 		if lock.ackCount > 0 {
 			self.ackGlocks[glockIndex].Unlock()
